@@ -1408,6 +1408,15 @@ func TestReplay(t *testing.T) {
 	if p == "" {
 		t.Skip("VERIF_REPLAY not set")
 	}
+	var w WatchCase
+	if err := vstat.LoadReplay(p, &w); err == nil && len(w.AdvanceSec) > 0 { // a long-lived client sequence
+		if _, err := runWatch(w); errors.Is(err, errInfra) {
+			t.Skipf("%v", err)
+		} else if err != nil && !errors.Is(err, errSkip) {
+			t.Fatalf("%v", err)
+		}
+		return
+	}
 	var c Case
 	if err := vstat.LoadReplay(p, &c); err != nil {
 		t.Fatal(err)
